@@ -1,0 +1,23 @@
+//go:build verif
+
+// Hooks for the verification harness in /verif (suite `sbom`, property C11). Compiled only with
+// `-tags verif`; thin exported wrappers around unexported identifiers, no behaviour of their own.
+package spdx
+
+// VerifStringToIdentifier calls stringToIdentifier.
+func VerifStringToIdentifier(in string) string { return stringToIdentifier(in) }
+
+// VerifReplacePackage calls replacePackage.
+func VerifReplacePackage(doc *Document, originalID, newID string) {
+	replacePackage(doc, originalID, newID)
+}
+
+// VerifCopySBOMElements calls copySBOMElements.
+func VerifCopySBOMElements(sourceDoc, targetDoc *Document, todo map[string]struct{}) error {
+	return copySBOMElements(sourceDoc, targetDoc, todo)
+}
+
+// VerifMergeLicensingInfos calls mergeLicensingInfos.
+func VerifMergeLicensingInfos(sourceDoc, targetDoc *Document) error {
+	return mergeLicensingInfos(sourceDoc, targetDoc)
+}
